@@ -23,7 +23,7 @@
 From Coq Require Import List NArith ZArith Bool Permutation.
 From SK Require Import lib.LGraph model.C01_Model model.C02_Model model.C09_Model
   proof.C09_Canon proof.C09_Valid proof.C09_Balance proof.C09_Main proof.C09_Indep proof.C09_Indep2 proof.C09_ValidRC proof.C09_WL proof.C09_NautyRigid proof.C09_Nauty.
-From SK Require Import lib.StrJoin model.C09_Strings proof.C09_Str proof.C09_Expand proof.C09_Graph proof.C09_Backends.
+From SK Require Import lib.StrJoin model.C09_Strings model.C09_State proof.C09_Str proof.C09_Expand proof.C09_Graph proof.C09_Backends proof.C09_State.
 From SK Require model.C08_Model proof.C08_Spec model.C01_Opts.
 Import ListNotations.
 
@@ -474,6 +474,28 @@ Theorem C09_rsmi_balance_check_graph : forall (formula : str -> option str) (a b
   rsmi_balance_check formula (a ++ GG ++ b) = Some (balancedb G H).
 Proof. exact rsmi_balance_check_graph. Qed.
 Print Assumptions C09_rsmi_balance_check_graph.
+
+(** the instance state of a CanonRSMI object (model/C09_State.v; compared field by field after every `canon` / `props` step of
+    the canonicaliser histories, also after failing calls): a call never sees the state left by earlier calls or by the
+    caller editing returned objects; after a successful call the properties are exactly the result of canonicalise_with;
+    after a failing call (no shared atom map) there is no canonical product graph and mapping_pairs = [] *)
+Theorem C09_cstep_fresh : forall (canonG : mgraph -> mgraph) (parsed : option (mgraph * mgraph)) (hist : list (cstate -> cstate)) (st : cstate),
+  cstep canonG parsed (fold_left (fun s f => f s) hist st) = cstep canonG parsed cs_init.
+Proof. exact cstep_after_anything. Qed.
+Print Assumptions C09_cstep_fresh.
+
+Theorem C09_cstep_done : forall (canonG : mgraph -> mgraph) (G H : mgraph) (st : cstate),
+  cs_done (cstep canonG (Some (G, H)) st) = true <->
+  exists Gc' prs Hc', canonicalise_with (canonG G) H = Some (Gc', prs, Hc') /\
+    cstep canonG (Some (G, H)) st = CS (Some G) (Some H) (Some Gc') (Some prs) (Some Hc') true.
+Proof. exact cstep_done. Qed.
+Print Assumptions C09_cstep_done.
+
+Theorem C09_cstep_failed : forall (canonG : mgraph -> mgraph) (G H : mgraph) (st : cstate),
+  canonicalise_with (canonG G) H = None ->
+  cstep canonG (Some (G, H)) st = CS (Some G) (Some H) (Some (canonG G)) (Some []) None false.
+Proof. exact cstep_failed. Qed.
+Print Assumptions C09_cstep_failed.
 
 (** 8. FULL numbering / atom-order independence and fixed point of the two back-ends (round 5).
        Vocabulary (proof/C09_Graph.v, proof/C09_Backends.v):
